@@ -500,6 +500,18 @@ def run(ctx, rep, tier):
         one_scaling_state(rep, F, E, tag)
         from . import c05
         # R5 (shared): identity scaling rewrites everything the KKT update reads
+    from . import c08
+    for cfg in CONFIGS:
+        c08.kkt_mirror(_Ren(rep, 'C08.R5', 'C11.R7'), ctx.facts(cfg), ctx.eff(cfg), ctx.cg(cfg), '' if cfg == 'default' else '[%s]' % cfg)
     from . import c05
     for cfg in CONFIGS:
         c05.fresh_start(rep, ctx.facts(cfg), ctx.eff(cfg), ctx.cg(cfg), '' if cfg == 'default' else '[%s]' % cfg)
+
+
+class _Ren:
+    def __init__(self, rep, old, new):
+        self.rep, self.old, self.new = rep, old, new
+        self.assumptions = rep.assumptions
+
+    def rule(self, rid, desc):
+        return self.rep.rule(self.new if rid == self.old else rid, desc)
